@@ -219,6 +219,13 @@ pub fn check_limit(l: &Limit) -> Check {
     pkg.flush().map_err(|e| Fail::new(format!("{P} flush-failed"), format!("{l:?}: flush after the call failed: {e}")))?;
     let bytes = buf.bytes();
     drop(pkg);
+    // a refused call must not leave anything behind in the file either: the
+    // independent decoder still finds every pool entry's reference count equal
+    // to the number of cells that refer to it (a leaked reference would use up
+    // capacity that is strictly within the limits)
+    if let Err((kind, d)) = crate::props::c08::check_file(&bytes, &now, true) {
+        return Err(Fail::new(format!("{P} file-inconsistent kind={kind} call-result={}", if res.is_ok() { "ok" } else { "err" }), format!("{l:?}: {d}")));
+    }
     let mut again = Package::open(SharedBuf::new(bytes)).map_err(|e| Fail::new(format!("{P} saved-file-unreadable"), format!("{l:?}: the library cannot open the file it saved: {e}")))?;
     let after = observe(&mut again).map_err(|e| Fail::new(format!("{P} saved-file-unreadable"), format!("{l:?}: the library cannot read the file it saved: {e}")))?;
     if let Some((part, d)) = now.canon().diff(&after.canon()) {
